@@ -509,6 +509,13 @@ class VectorContainer:
         """Return a copy of the current object."""
         copied = self.__class__(span=copy.deepcopy(self.__dict__['span']))
         copied.__dict__.update({k: copy.deepcopy(v) for k, v in self.__dict__.items()})
+
+        # `__init__()` follows the class as it is *now*: drop anything it set
+        # up that the original does not have (e.g. a variable for a name added
+        # to the class-level `NAMES` after the original was created)
+        for k in [k for k in copied.__dict__ if k not in self.__dict__]:
+            del copied.__dict__[k]
+
         return copied
 
     __copy__ = copy
